@@ -749,13 +749,13 @@ theorem mergeNext_winv {a : CBA} {pre post : List Block} {c : Block}
 /-- `free(x)` when no used block starts at `x` (never allocated, interior address, already
     freed): nothing changes -/
 theorem free_noop {a : CBA} {bs : List Block} (h : WInv a bs) {x : Nat}
-    (hx' : x < a.off + a.size) (hno : ∀ u ∈ bs, u.used = true → u.start ≠ x) :
+    (hno : ∀ u ∈ bs, u.used = true → u.start ≠ x) :
     a.free (some x) = .ok a := by
   simp only [CBA.free]
-  by_cases hlo : x < a.off
-  · rw [if_pos hlo]; rfl
-  rw [if_neg hlo]
-  have hx : a.off ≤ x ∧ x < a.off + a.size := ⟨by omega, hx'⟩
+  by_cases hlo : x < a.off ∨ x - a.off ≥ a.size
+  · rw [if_pos (by simpa using hlo)]; rfl
+  rw [if_neg (by simpa using hlo)]
+  have hx : a.off ≤ x ∧ x < a.off + a.size := by omega
   rcases cell_classify h hx with ⟨pre, b, post, rfl, hb, hc⟩ | hc
   · rw [hc]
     simp only [bind, Except.bind]
@@ -766,12 +766,11 @@ theorem free_noop {a : CBA} {bs : List Block} (h : WInv a bs) {x : Nat}
     simp [this, pure, Except.pure]
   · rw [hc]; rfl
 
-theorem free_inv {a : CBA} {bs : List Block} (h : Inv a bs) {x : Nat}
-    (hx : x < a.off + a.size) :
+theorem free_inv {a : CBA} {bs : List Block} (h : Inv a bs) {x : Nat} :
     ∃ a' bs', a.free (some x) = .ok a' ∧ Inv a' bs' ∧ SameFrame a' a ∧
       (∀ u, u.used = true → (u ∈ bs' ↔ u ∈ bs ∧ u.start ≠ x)) := by
   by_cases hno : ∀ u ∈ bs, u.used = true → u.start ≠ x
-  · exact ⟨a, bs, free_noop h.toWInv hx hno, h, SameFrame.refl a,
+  · exact ⟨a, bs, free_noop h.toWInv hno, h, SameFrame.refl a,
       fun u hu => ⟨fun hm => ⟨hm, hno u hm hu⟩, fun hm => hm.1⟩⟩
   · have hno' : ∃ b, b ∈ bs ∧ b.used = true ∧ b.start = x := by
       apply Classical.byContradiction
@@ -787,11 +786,11 @@ theorem free_inv {a : CBA} {bs : List Block} (h : Inv a bs) {x : Nat}
     obtain ⟨a3, c3, post3, e3, hw3, hf3, hc3, hn3, hh3, hu3⟩ := mergeNext_winv hw2 hc2 hna.2
     refine ⟨a3, pre2 ++ c3 :: post3, ?_, ⟨hw3, ?_⟩, hf3.trans (hf2.trans hf1), ?_⟩
     · simp only [CBA.free]
-      have hlo : ¬ x < a.off := by
+      have hlo : ¬ (x < a.off ∨ x - a.off ≥ a.size) := by
         have := tiles_mem hw.tiles (b := b) (by simp)
         have := hw.offLe
         omega
-      rw [if_neg hlo]
+      rw [if_neg (by simpa using hlo)]
       have hcell : a.cell x = .ok (some b) := by rw [← hbx]; exact hw.arrAt.cell
       rw [hcell]
       simp only [bind, Except.bind, hbu, Bool.not_true, Bool.false_eq_true, if_false]
